@@ -552,7 +552,8 @@ def backendDone (cfg : Cfg) (st : St) : St :=
 
 /-- http_response_backend_error() -/
 def backendError (cfg : Cfg) (st : St) : St :=
-  if st.started && !st.hdrSent then backendIncomplete st
+  if st.started && bodiless cfg st then st       -- (complete with its head: finished by backendDone)
+  else if st.started && !st.hdrSent then backendIncomplete st
   else if st.started then { (backendAbort cfg st) with handler := false, finished := true }
   else st
 
@@ -641,15 +642,19 @@ def trailerField (line : Bytes) : Option (Bytes × Bytes) :=
 /-- http_response_merge_trailers() -/
 def mergeTrailers (cfg : Cfg) (st : St) : St :=
   if st.dc.isNone then st
-  else if (dcTrailerFields st.trailerBuf).isEmpty then st   -- (b is blank on the C's short cut)
   else if st.dcDone = 0 then st
   else if st.dcDone < 400 && st.status ≥ 400 then st
   else
-    let ls := (linesOf st.trailerBuf []).drop 1
-    let hs := ls.foldl (fun hs l => match trailerField l with
-      | some (k, v) => hdrInsert (cfg.ver ≥ 2) hs k v
-      | none => hs) st.headers
-    { st with headers := hdrUnset hs nTrailer, trailerBuf := [] }
+    -- the body is complete and the response has no trailer section: the Trailer field goes,
+    -- whether or not `gw_dechunk->b` still holds the last-chunk line
+    let hs0 := hdrUnset st.headers nTrailer
+    if (dcTrailerFields st.trailerBuf).isEmpty then { st with headers := hs0 }
+    else
+      let ls := (linesOf st.trailerBuf []).drop 1
+      let hs := ls.foldl (fun hs l => match trailerField l with
+        | some (k, v) => hdrInsert (cfg.ver ≥ 2) hs k v
+        | none => hs) hs0
+      { st with headers := hs, trailerBuf := [] }
 
 /-- http_response_write_prepare(), first part: responses without body and error documents -/
 def wpStatus (st : St) : St :=
